@@ -235,8 +235,8 @@ class World:
         self.k = Kernel(ctx, ch, fault)
         self.vt = VTerm(rows, cols, profile or Profile(), cell_px, prefill=prefill)
         self.tty = simtty.SimTTY(self.k, self.vt)
-        self.out = simtty.SimStdout(self.k, self.tty if stdout_tty else None,
-                                    isatty=stdout_tty, buffered=buffered, retain=retain)
+        self.out = simtty.SimStdout(self.k, self.tty, isatty=stdout_tty, buffered=buffered,
+                                    retain=retain)
         CURRENT_KERNEL[0] = self.k
         if reuse and _REUSE["boot"] is not None and (_REUSE["widget"] or not with_widget):
             self.boot = _REUSE["boot"]
